@@ -5,7 +5,7 @@ from E2_common import eq
 
 ENTRIES = ['harness_vtable', 'harness_class_order', 'harness_class_chain', 'harness_dispatch', 'harness_construct']
 NAMES = 'ABC'
-CALLS = ['o.m()', 'o.m(<int>)', 'o.n()', 'o.p(<int>)', 'o.q()', 'o.r()']
+CALLS = ['o.m()', 'o.m(<int>)', 'o.n()', 'o.p(<int>)', 'o.q()', 'o.r()', 'o.t()']
 
 
 def oq(name, entry, params, desc, tier, timeout=900):
@@ -13,17 +13,17 @@ def oq(name, entry, params, desc, tier, timeout=900):
 
 
 def expected(dyn, call):
-    return {0: 10 if dyn == 0 else 20, 1: 31 if dyn == 2 else 11, 2: 10, 3: 40, 4: 50, 5: 'the (symbolic) value of field v'}[call]
+    return {0: 10 if dyn == 0 else 20, 1: 31 if dyn == 2 else 11, 2: 10, 3: 40, 4: 50, 5: 'the (symbolic) value of field v', 6: 10 if dyn == 0 else 20}[call]
 
 
 def queries(tier):
-    combos = [(s, d, c) for s in range(3) for d in range(s, 3) for c in range(6) if c != 2 or s >= 1]
+    combos = [(s, d, c) for s in range(3) for d in range(s, 3) for c in range(7) if c != 2 or s >= 1]
     if tier == 'quick':
-        combos = [(0, 1, 0), (0, 2, 1), (1, 2, 2), (1, 1, 3), (2, 2, 3), (0, 1, 4), (1, 2, 4), (0, 1, 5), (1, 1, 5)]
+        combos = [(0, 1, 0), (0, 2, 1), (1, 2, 2), (1, 1, 3), (2, 2, 3), (0, 1, 4), (1, 2, 4), (0, 1, 5), (1, 1, 5), (0, 1, 6), (1, 2, 6)]
     qs = []
     for s, d, c in combos:
         qs.append(oq('dispatch static=%s dynamic=%s call=%s' % (NAMES[s], NAMES[d], CALLS[c]), 'harness_dispatch', [s, d, c],
-                     'A{int v; virtual m()=10; virtual m(int)=11; p(int)=40; virtual q()=50; virtual r()=this.v} B extends A{override m()=20; n()=super.m(); p(long)=41; '
+                     'A{int v; virtual m()=10; virtual m(int)=11; p(int)=40; virtual q()=50; virtual r()=this.v; t()=m()} B extends A{override m()=20; n()=super.m(); p(long)=41; '
                      'override q()=super.q(); override r()=super.r()} C extends B{override m(int)=31}; a variable of static '
                      'class %s holding a %s object, %s evaluated by the real eval(): result must be %s (field value, argument value and node positions symbolic)'
                      % (NAMES[s], NAMES[d], CALLS[c], expected(d, c)), tier))
@@ -43,7 +43,7 @@ META = dict(
                  'the constructor argument (|k|<1000, keeps int arithmetic inside the range) and node positions symbolic',
                  'runtimeSignatureLabel modelled (name + one letter per parameter kind)', 'classes are hand-built past the parser and the analyser; '
                  'objects are built directly (no heap registration, no destructor run)'],
-    bounds={'hierarchy depth': 3, 'overloads of one name': 2, 'calls': 'm(), m(int), n() -> super.m()', 'constructor chain': 'A <- B'},
+    bounds={'hierarchy depth': 3, 'overloads of one name': 2, 'calls': 'm(), m(int), n() -> super.m(), p(int|long), q() -> super.q(), r() -> super.r() -> this.v, t() -> unqualified m()', 'constructor chain': 'A <- B'},
     outside=['overload choice made by the analyser from static argument types (only the runtime choice is exercised)', 'reference-typed overload parameters',
              'static fields, generics/specialisations, destructors and their order, destroy statements', 'printed output of whole programs',
              'hierarchies, overriding patterns and call sequences other than the enumerated ones'],
